@@ -228,7 +228,7 @@ func (c *c15Ctx) validate(n *provenance.ProofNode, ancestors map[string]bool, re
 			}
 			subs = append(subs, sc)
 		}
-		content = fmt.Sprintf("transform%d:%s[%s]", n.Kind, fk, strings.Join(subs, ";"))
+		content = fmt.Sprintf("transform%d:%s:%s[%s]", n.Kind, n.Rule.String(), fk, strings.Join(subs, ";")) // the rule is part of what a node says
 	}
 	// identifiers depend only on content
 	if n.ID == "" {
